@@ -1,0 +1,47 @@
+//go:build verif
+
+// Contracts for package type_msm4/signal, checked by /verif/govc (see /verif/DESIGN.md).
+// This file contains only comments; it is compiled only with -tags verif and
+// has no effect on the package.
+
+package signal
+
+//@ func GetSignalCells
+//@ requires[C07] header != nil
+//@ requires HeaderWF(header) && len(satCells) == len(header.Satellites) && startOfSignalCells <= 1<<40 && startOfSignalCells + 24 <= 8*len(bitStream)
+//@ let S = startOfSignalCells
+//@ ensures r1 == nil ==> len(r0) == len(header.Satellites) && fresh(r0)
+//@ loop 1
+//@ invariant 0 <= i && i <= numSignalCells && len(rangeDelta) == i && fresh(rangeDelta) && pos == S + 15*i
+//@ invariant 0 <= numSignalCells && S + 48*numSignalCells <= 8*len(bitStream)
+//@ decreases numSignalCells - i
+//@ loop 2
+//@ invariant 0 <= i && i <= numSignalCells && len(phaseRangeDelta) == i && fresh(phaseRangeDelta) && pos == S + 15*numSignalCells + 22*i
+//@ invariant 0 <= numSignalCells && S + 48*numSignalCells <= 8*len(bitStream) && len(rangeDelta) == numSignalCells
+//@ decreases numSignalCells - i
+//@ loop 3
+//@ invariant 0 <= i && i <= numSignalCells && len(lockTimeIndicator) == i && fresh(lockTimeIndicator) && pos == S + 37*numSignalCells + 4*i
+//@ invariant 0 <= numSignalCells && S + 48*numSignalCells <= 8*len(bitStream) && len(rangeDelta) == numSignalCells && len(phaseRangeDelta) == numSignalCells
+//@ decreases numSignalCells - i
+//@ loop 4
+//@ invariant 0 <= i && i <= numSignalCells && len(halfCycleAmbiguity) == i && fresh(halfCycleAmbiguity) && pos == S + 41*numSignalCells + i
+//@ invariant 0 <= numSignalCells && S + 48*numSignalCells <= 8*len(bitStream) && len(rangeDelta) == numSignalCells && len(phaseRangeDelta) == numSignalCells && len(lockTimeIndicator) == numSignalCells
+//@ decreases numSignalCells - i
+//@ loop 5
+//@ invariant 0 <= i && i <= numSignalCells && len(cnr) == i && fresh(cnr) && pos == S + 42*numSignalCells + 6*i
+//@ invariant 0 <= numSignalCells && S + 48*numSignalCells <= 8*len(bitStream) && len(rangeDelta) == numSignalCells && len(phaseRangeDelta) == numSignalCells && len(lockTimeIndicator) == numSignalCells && len(halfCycleAmbiguity) == numSignalCells
+//@ decreases numSignalCells - i
+//@ loop 6
+//@ invariant 0 - 1 <= rangeindex && rangeindex <= len(header.Cells) - 1 && (len(header.Cells) == 0 || rangeindex < len(header.Cells))
+//@ invariant len(signalCells) == rangeindex + 1 && fresh(signalCells) && 0 <= c && forall(k, 0, len(signalCells), fresh(signalCells[k]))
+//@ invariant len(rangeDelta) == numSignalCells && len(phaseRangeDelta) == numSignalCells && len(lockTimeIndicator) == numSignalCells && len(halfCycleAmbiguity) == numSignalCells && len(cnr) == numSignalCells
+//@ decreases len(header.Cells) - rangeindex
+//@ loop 7
+//@ invariant 0 - 1 <= rangeindex && rangeindex <= len(header.Signals) - 1 && 0 <= i && i < len(header.Cells)
+//@ invariant len(signalCells) == i + 1 && fresh(signalCells) && 0 <= c && forall(k, 0, len(signalCells), fresh(signalCells[k]))
+//@ invariant len(rangeDelta) == numSignalCells && len(phaseRangeDelta) == numSignalCells && len(lockTimeIndicator) == numSignalCells && len(halfCycleAmbiguity) == numSignalCells && len(cnr) == numSignalCells
+//@ decreases len(header.Signals) - rangeindex
+
+//@ func (*Cell).String
+//@ requires[C07] cell != nil
+//@ arith wrap
